@@ -408,8 +408,74 @@ fn c20_dom<D: Dom>(cx: &RunCtx) {
     tok_run::<D>(cx, "E-TOK Σ_juxt (collecting contexts and subexpressions)", alpha, if quick { 4 } else { 5 }, 9, ONLY_DEFAULT, &none, Some(&collect), 2400);
     let mut contexts = contexts.into_inner().unwrap();
     let mut subs = subs.into_inner().unwrap();
+    // structured contexts: the hole in every argument position of every function, operator and
+    // postfix mark of the evaluator, next to constants (finite family, independent of the depth bound)
+    let consts: Vec<&str> = if D::EV.has_point() { vec!["2", "3", "64", "125", "0.5", "10", "(-0)", "7"] } else { vec!["2", "3", "64", "125", "10", "(-1)", "7"] };
+    let mut seen: Vec<&str> = Vec::new();
+    for (name, f) in func_names(D::EV) {
+        if seen.contains(name) {
+            continue;
+        }
+        seen.push(name);
+        match f.arity() {
+            Arity::Fixed(1) => contexts.push(format!("{}(@)", name)),
+            Arity::Fixed(_) => {
+                for c in &consts {
+                    contexts.push(format!("{}(@,{})", name, c));
+                    contexts.push(format!("{}({},@)", name, c));
+                }
+            }
+            _ => {
+                contexts.push(format!("{}(@)", name));
+                for c in &consts {
+                    contexts.push(format!("{}(@,{})", name, c));
+                    contexts.push(format!("{}({},@,{})", name, c, c));
+                }
+            }
+        }
+    }
+    let mut binops = vec!["+", "-", "*", "/", "^"];
+    if D::EV.has_percent() {
+        binops.push("%");
+    }
+    if D::EV.has_bitops() {
+        binops.extend(["&", "|", "<<", ">>"]);
+    }
+    for o in binops {
+        for c in &consts {
+            contexts.push(format!("@{}{}", o, c));
+            contexts.push(format!("{}{}@", c, o));
+        }
+    }
+    for post in ["!", "°", "rad", "²", "³"] {
+        let ok = match post {
+            "!" => D::EV.has_factorial(),
+            "°" | "rad" => D::EV.has_deg_rad(),
+            _ => true,
+        };
+        if ok {
+            contexts.push(format!("@{}", post));
+            contexts.push(format!("-@{}", post));
+        }
+    }
+    if D::EV.has_floor_brackets() {
+        contexts.push("⌊@⌋".into());
+        contexts.push("⌈@⌉".into());
+    }
+    // compound subexpressions worth small whole values (a literal and a compound of the same value
+    // must be indistinguishable to every enclosing operation)
+    for e in ["1+2", "6/2", "1+1", "4/2", "9-7", "2*2", "3-3", "0-2", "2^2", "8-5", "1+1+1"] {
+        subs.push(e.to_string());
+    }
+    if D::EV.has_point() {
+        for e in ["1.5+1.5", "0.5*4", "2.5-0.5", "0.25+0.25", "1-1.5"] {
+            subs.push(e.to_string());
+        }
+    }
     contexts.sort();
+    contexts.dedup();
     subs.sort();
+    subs.dedup();
     let p0 = D::default_at();
     let t0 = std::time::Instant::now();
     let parts: Vec<Stats> = subs
